@@ -4,6 +4,7 @@ import (
 	"encoding/hex"
 	"encoding/json"
 	"github.com/brutella/hc/util"
+	"strings"
 )
 
 // Database stores entities
@@ -91,6 +92,12 @@ func (db *database) entityForKey(key string) (e Entity, err error) {
 
 	if b, err = db.storage.Get(key); err == nil {
 		err = json.Unmarshal(b, &e)
+	}
+
+	// The name is taken from the key: JSON does not preserve
+	// names which are not valid UTF-8.
+	if name, derr := hex.DecodeString(strings.TrimSuffix(key, ".entity")); err == nil && derr == nil {
+		e.Name = string(name)
 	}
 
 	return
